@@ -189,11 +189,14 @@ def all_integral(m):
     return bool(np.all(np.asarray(m, dtype=float) == np.round(np.asarray(m, dtype=float))))
 
 
+relayout = gen.relayout
+
+
 def np_data(m, dtype):
     a = np.array(m, dtype=float)
     if dtype == 'int' and all_integral(a):
-        return a.astype(np.int64)
-    return a
+        return relayout(a.astype(np.int64))
+    return relayout(a)
 
 
 # (prior_lambda = 0 with a positive weight is a valid prior setting: the rates are mean/(1+w);
